@@ -130,7 +130,7 @@ theorem Inv.addCds {L : Live} {ever : List AreaT} {r r' : Rec} (h : Inv L ever r
              sorted := ?_, ok := ?_, ids := ?_, byName := ?_, byLoc := ?_, areasOK := c.areasOK,
              kindsR := ?_, kindsO := ?_, disjoint := ?_,
              membersSound := ?_, membersComplete := ?_, sectionsSound := ?_, sectionsComplete := ?_,
-             defsSound := ?_, defsComplete := ?_, regionKeys := ?_, regionPtr := ?_, cover := eff.cover c.cover }
+             defsSound := ?_, defsComplete := ?_, regionKeys := ?_, regionPtr := ?_, cover := eff.cover c.cover, defsSub := eff.defsSub c.defsSub }
     · intro x; simp only [hgenes, c.genesLive, Live.step, List.mem_append, List.mem_singleton]
     · simp only [eff.regions, Live.step]; exact c.regionsEq
     · simp only [eff.protos, Live.step]; exact c.protosEq
